@@ -194,6 +194,9 @@ func (pca *podContainerAffinity) parseFull(pod *pod, value string, weight int32)
 		}
 
 		for _, a := range pa {
+			if a == nil {
+				return cacheError("invalid affinity annotation '%s': empty affinity for %s", value, name)
+			}
 			if a.Scope == nil {
 				a.Scope = podScope
 			}
